@@ -213,7 +213,8 @@ MANIFEST = dict(
     text=('Monitor (representation) invariant and two-state guarantee of TransferCoordinator discharged at every '
           'release of its lock in every state-changing method, plus per-method postconditions relative to the '
           'arbitrary invariant-satisfying state found at lock acquisition: holds for every operation sequence (no '
-          'length bound) and every interleaving of the coordinator methods, because critical sections are atomic.'),
+          'length bound) and every interleaving of the coordinator methods, because critical sections are atomic.'
+          ' Also: call-site rule -- inside the package set_exception is never called with override (only the public TransferFuture.set_exception passes it); CRT coordinator: once a request is attached, done() is what its finished future says, and result() keeps that future attached.'),
     note=('threading.Lock is a mutex (A-LOCK); attribute loads are atomic (A-GIL); unlocked reads return arbitrary '
           'values; result() assumes no set_result after the done event (A-STABLE-AFTER-DONE).'),
     technique='contract-based deductive verification: monitor invariants + rely/guarantee on the real methods, z3',
